@@ -97,6 +97,9 @@ func c08Feature(c *c08Case) string {
 			break
 		}
 	}
+	if s.Boundary != "" {
+		fs = append(fs, "custom-boundary")
+	}
 	if len(s.Parts) == 0 {
 		if len(s.Embeds)+len(s.Attach) == 1 {
 			fs = append(fs, "single-file-no-body")
@@ -119,7 +122,9 @@ func verifySigned(out []byte, withInt bool, keyType string) (entity []byte, prob
 	if root.MediaType != "multipart/signed" {
 		return nil, []string{"structure: top-level type is " + root.MediaType + ", not multipart/signed"}
 	}
-	for _, p := range root.AllProblems() {
+	// only the signed container itself is judged here: how the signed entity is structured inside
+	// (e.g. nested containers sharing a caller-defined boundary) is not this property's business
+	for _, p := range root.Problems {
 		if structuralCodes[p.Code] {
 			probs = append(probs, "structure: "+p.String())
 		}
@@ -365,6 +370,9 @@ func genC08(rng *mrand.Rand, id string, p, e, a int, enc string) c08Case {
 	fix(s.Attach)
 	s.SMIME = gen.Pick(rng, []string{"rsa", "ecdsa"})
 	s.WithInt = rng.Intn(2) == 0
+	if rng.Intn(6) == 0 {
+		s.Boundary = "verif-custom-boundary-0123456789"
+	}
 	c := c08Case{Spec: s}
 	for _, f := range c08Features {
 		if rng.Intn(7) == 0 {
@@ -432,6 +440,22 @@ func runC08(r *ev.Run, rep *ev.ReplayDoc) ev.Summary {
 			c.Features = []string{f}
 			c.OpenSSL = true
 			cases = append(cases, c)
+		}
+	}
+	// a caller-defined boundary on every multi-leaf shape, both key types
+	for p := 1; p <= 2; p++ {
+		for a := 0; a <= 1; a++ {
+			for e := 0; e <= 1; e++ {
+				for _, k := range []string{"rsa", "ecdsa"} {
+					n++
+					c := genC08(r.Rng("c08b", n), fmt.Sprintf("c08-b%d", n), p, e, a, "quoted-printable")
+					c.Spec.SMIME = k
+					c.Spec.Boundary = "verif-custom-boundary-0123456789"
+					c.Features = nil
+					c.OpenSSL = n%2 == 0
+					cases = append(cases, c)
+				}
+			}
 		}
 	}
 	m := r.Pick(800, 30000)
